@@ -470,7 +470,8 @@ def conds(tier):
                            k, "the %d stateful commands" % nh if sub else "the alphabet of %d" % NOPS)))
     for (m, n) in ([(2, 2), (2, 3)] if q else [(2, 2), (2, 3), (3, 3), (3, 4)]):
         cs.append(Cond("additive-m%d-n%d" % (m, n), "harness.c18:additive", e1_params(m, n) + [P("a", "int", 0, len(AOPS)), P("swap", "bool")],
-                       fixed={"m": m, "n": n}, pre=[e1_wf_expr(m, n)], shard=["a"] + (["swap"] if m * n >= 9 else []),
+                       fixed={"m": m, "n": n}, pre=[e1_wf_expr(m, n)] + (["a < 12"] if (q and m * n > 4) else []), shard=["a"] + (["swap"] if m * n >= 9 else []),
+                       skip=(lambda sf: sf["a"] >= 12) if (q and m * n > 4) else None,
                        timeout=600 if q else 3000, functions=FUNCS))
     ipars = [P("fa", "int", 0, 4), P("fb", "int", 0, 4), P("gza", "bool"), P("gzb", "bool"), P("same", "bool")] + \
             [P("s%d" % i, "bool") for i in range(1, 5)]
